@@ -418,7 +418,7 @@ func runC02(r *report.Report) {
 	if full {
 		lens = append(lens, 16385, 2097151, 2097152)
 	}
-	run("headers", fmt.Sprintf("256 first bytes x remaining lengths %v in minimal and all padded (2-,3-,4-byte) encodings, plus 4 continuation bytes x bodies {missing, zeros, 0xff, RL-1, RL+1, ascending bytes}", lens),
+	run("headers", fmt.Sprintf("256 first bytes x remaining lengths %v in minimal and all padded (2-,3-,4-byte) encodings, over-long 5- and 6-byte encodings of the small values, plus 4 continuation bytes x bodies {missing, zeros, 0xff, RL-1, RL+1, ascending bytes}", lens),
 		"every (type nibble, flag nibble, length encoding, body) combination, also through packet.Decoder.Read",
 		func(emit func([]byte)) {
 			for first := 0; first < 256; first++ {
@@ -428,7 +428,11 @@ func runC02(r *report.Report) {
 						encs = append(encs, paddedVarint(rl, pad))
 					}
 					if rl == 0 {
-						encs = append(encs, []byte{0x80, 0x80, 0x80, 0x80, 0x01}, []byte{0xff, 0xff, 0xff, 0xff})
+						encs = append(encs, []byte{0x80, 0x80, 0x80, 0x80, 0x01}, []byte{0xff, 0xff, 0xff, 0xff}, []byte{0xff, 0xff, 0xff, 0xff, 0x00})
+					}
+					if rl <= 12 {
+						// over-long length fields (5 and 6 bytes) whose value is small: malformed, whatever follows
+						encs = append(encs, paddedVarint(rl, 5), paddedVarint(rl, 6))
 					}
 					for _, e := range encs {
 						hdr := append([]byte{byte(first)}, e...)
@@ -569,6 +573,41 @@ func runC02(r *report.Report) {
 						}
 					}
 				}
+			}
+		}, false)
+	// (e) length-prefixed fields at and around the 16-bit maximum (a decoder that admits them must be able to forward them)
+	run("maximum-length-fields", "PUBLISH topics / payloads, CONNECT client id / will topic / will payload / user name / password, SUBSCRIBE and UNSUBSCRIBE filters of 65534 and 65535 bytes, hand-assembled",
+		"each input framed and embedded; the forwardable clause re-encodes every admitted PUBLISH and will",
+		func(emit func([]byte)) {
+			lp := func(n int, c byte) []byte {
+				b := []byte{byte(n >> 8), byte(n)}
+				for i := 0; i < n; i++ {
+					b = append(b, c)
+				}
+				return b
+			}
+			frame := func(first byte, body []byte) []byte {
+				return append(append([]byte{first}, minimalVarint(len(body))...), body...)
+			}
+			for _, n := range []int{65534, 65535} {
+				emit(frame(0x30, append(lp(n, 't'), 'p')))                                     // PUBLISH q0, long topic
+				emit(frame(0x32, append(append(lp(n, 't'), 0, 7), 'p')))                       // PUBLISH q1, long topic
+				emit(frame(0x30, append(lp(1, 't'), lp(n, 'p')[2:]...)))                       // PUBLISH, long payload
+				emit(frame(0x82, append(append([]byte{0, 7}, lp(n, 'f')...), 1)))              // SUBSCRIBE
+				emit(frame(0xa2, append([]byte{0, 7}, lp(n, 'f')...)))                         // UNSUBSCRIBE
+				hdr := []byte{0, 4, 'M', 'Q', 'T', 'T', 4}
+				conn := func(flags byte, fields ...[]byte) []byte {
+					b := append(append([]byte{}, hdr...), flags, 0, 10)
+					for _, f := range fields {
+						b = append(b, f...)
+					}
+					return frame(0x10, b)
+				}
+				emit(conn(0x02, lp(n, 'c')))                                                   // client id
+				emit(conn(0x0e, lp(1, 'c'), lp(n, 'w'), lp(1, 'x')))                           // will topic
+				emit(conn(0x0e, lp(1, 'c'), lp(1, 'w'), lp(n, 'x')))                           // will payload
+				emit(conn(0xc2, lp(1, 'c'), lp(n, 'u'), lp(1, 'p')))                           // user name
+				emit(conn(0xc2, lp(1, 'c'), lp(1, 'u'), lp(n, 'p')))                           // password
 			}
 		}, false)
 	r.Sample("32 03 00 01 61 | 00 07  (PUBLISH QoS 1 whose remaining length ends before the packet id)")
